@@ -165,14 +165,17 @@ func exploreA(name string, init *stateA, b *boundsA, maxStates int) *unitStats {
 			}
 			u.Transitions++
 			if r.Real {
-				u.RealTransitions++
+				if r.Executed {
+					u.RealTransitions++
+				}
 				if n.hasFlip {
 					u.FlipThenRec++
 				}
 				if r.Next.key() == n.s.key() && len(r.Calls) > 0 {
 					u.NoopWrites++
 				}
-				if i%97 == 0 { // determinism discipline: replay a fixed fraction twice
+				if i%97 == 0 { // determinism discipline: re-execute a fixed fraction on a fresh store
+					delete(recMemoA, n.s.key())
 					r2, err := applyA(n.s, e)
 					u.DeterminismCheck++
 					if err != nil || r2.Next.key() != r.Next.key() || r2.Err != r.Err {
@@ -539,7 +542,9 @@ func exploreB(name string, init *stateB, b *boundsB, maxStates int) *unitStats {
 			}
 			u.Transitions++
 			if r.Real {
-				u.RealTransitions++
+				if r.Executed {
+					u.RealTransitions++
+				}
 				if r.Err != "" {
 					u.inc("reconcile_errors", 1)
 				}
@@ -551,6 +556,7 @@ func exploreB(name string, init *stateB, b *boundsB, maxStates int) *unitStats {
 					u.inc("reconcile_of_top_queue_in_multilevel_tree", 1)
 				}
 				if i%97 == 0 {
+					delete(recMemoB, n.s.key()+"#"+strconv.Itoa(e.I))
 					r2, err := applyB(n.s, e)
 					u.DeterminismCheck++
 					if err != nil || r2.Next.key() != r.Next.key() {
